@@ -218,7 +218,7 @@ def bundleLine (bm : List Nat) (toks : List String) : List Nat × String :=
       else if auth = 2 then (bm, "err AccountNotSigner " ++ show_ bm)
       else if auth = 5 then (bm, "err ConstraintSeeds " ++ show_ bm)   -- the address of another bundle index
       else if i < 256 && bundleBit bm i then (bm, "err AccountAlreadyInitialized " ++ show_ bm)
-      else if auth = 4 then (bm, "err ConstraintRaw " ++ show_ bm)   -- the token of another bundle
+      else if auth = 4 || auth = 6 then (bm, "err ConstraintRaw " ++ show_ bm)   -- the token of another bundle; an EMPTY account of the bundle mint
       else if auth = 1 then (bm, "err MissingOrInvalidDelegate " ++ show_ bm)
       else match bundleUpdate bm i true with
         | .error e => (bm, "err " ++ e.name ++ " " ++ show_ bm)
@@ -236,7 +236,7 @@ def bundleLine (bm : List Nat) (toks : List String) : List Nat × String :=
       if bm.isEmpty then (bm, "err Deleted")
       else if !(i < 256 && bundleBit bm i) then (bm, "err AccountNotInitialized " ++ show_ bm)
       else if auth = 2 then (bm, "err AccountNotSigner " ++ show_ bm)
-      else if auth = 4 then (bm, "err ConstraintRaw " ++ show_ bm)
+      else if auth = 4 || auth = 6 then (bm, "err ConstraintRaw " ++ show_ bm)
       else if auth = 1 then (bm, "err MissingOrInvalidDelegate " ++ show_ bm)
       else if dirty ≠ 0 then (bm, "err ClosePositionNotEmpty " ++ show_ bm)
       else match bundleUpdate bm i false with
